@@ -435,6 +435,9 @@ def paths(sp, depth=2):
     return out
 
 
+MULTI_P = [0.12]      # probability that a push is a variadic one crossing the capacity twice (the search raises it)
+
+
 def gen_history(rng, nstmts, fibers=True):
     """A random well-typed history (list of statements)."""
     sp = Spec(False)
@@ -550,7 +553,9 @@ def gen_history(rng, nstmts, fibers=True):
                 if fibers and sp.launched and sp.x is v and rng.random() < 0.5:
                     add(("fpush", value_expr()))
                 else:
-                    add(("push", e, [value_expr() for _ in range(rng.choice([1, 1, 1, 2]))]))
+                    # now and then one variadic push that crosses the capacity more than once (4 -> 8 -> 16 ...)
+                    npush = rng.randint(9, 14) if rng.random() < MULTI_P[0] else rng.choice([1, 1, 1, 2])
+                    add(("push", e, [value_expr() for _ in range(npush)]))
             elif w < 0.74:
                 add(("insert", e, rng.randrange(n + 1), value_expr()))
             elif w < 0.82 and n:
@@ -837,7 +842,12 @@ def search_spec(ctx, budget):
     """Spec-judged search (the property itself): histories whose *Model* prediction is Spec-conformant
     but the implementation is not."""
     rng = random.Random(ctx.seed * 7919 + 101)
-    cases = [(gen_history(rng, rng.randint(8, 26)), True) for _ in range(budget)]
+    cases = [(gen_history(rng, rng.randint(8, 26)), True) for _ in range(budget // 2)]
+    MULTI_P[0] = 0.6
+    try:
+        cases += [(gen_history(rng, rng.randint(6, 16), fibers=False), True) for _ in range(budget - budget // 2)]
+    finally:
+        MULTI_P[0] = 0.12
     res = run_cases(cases, workdir(ctx.seed, "search"), "search")
     ctx.stream_stat("search", histories=len(res))
     for r in res:
@@ -875,7 +885,7 @@ def run(ctx):
     if not proved:
         what, detail = ctx.broken
         common.lake_build(["drv_listfwd"])      # the driver only needs the model, not the theorems
-        found = search_spec(ctx, ctx.n(3000, 20000))
+        found = search_spec(ctx, ctx.n(16000, 80000))
         if found:
             r, d = found
             p = report(ctx, r, "spec", d, "search")
@@ -925,7 +935,7 @@ def run(ctx):
                                            "what": detail, "source": r["source"], "ops": r["ops"]}, no_input=True)
             else:
                 ctx.cov["model_vs_impl_disagreements"] += 1
-                found = search_spec(ctx, ctx.n(4000, 30000))
+                found = search_spec(ctx, ctx.n(16000, 80000))
                 if found:
                     r2, d2 = found
                     p = report(ctx, r2, "spec", d2, "search")
